@@ -21,7 +21,7 @@ def main():
         demo = os.path.join(d, f"{x}.demo.patch.diff")
         cmd = meta.get("demo_cmd", "")
         # the test filter / feature flags of the demo command
-        m = re.search(r"cargo test[^&;|]*", cmd)
+        m = re.search(r"cargo test[^&;|(#]*", cmd)
         test_cmd = m.group(0).strip() if m else "cargo test --offline"
         if "--offline" not in test_cmd:
             test_cmd += " --offline"
